@@ -1480,3 +1480,455 @@ Example lost_closer_compensated_texts :
   texts (del 4 (toks_of doc_free_bracket)) = doc_free_bracket_lost /\
   texts (firstn 6 (toks_of doc_free_end) ++ skipn 11 (toks_of doc_free_end)) = doc_free_end_lost.
 Proof. vm_compute. split; reflexivity. Qed.
+
+(* ====================================================================== *)
+(* 6. Stage 3+: a strict success matched every `\begin` (counting)        *)
+(* ====================================================================== *)
+
+(* the environment counter: scanning left to right, the token after an
+   Escape token is a command name; a name `begin` increments the depth, a name
+   `end` decrements it when positive (a free \end at depth 0 is an ordinary
+   command); all other tokens are neutral.  `p` = "the previous token was an
+   Escape whose name is still to come" *)
+Definition is_b (n : token) : bool := str_eqb (ttext n) s_begin.
+Definition is_e (n : token) : bool := str_eqb (ttext n) s_end.
+Definition ebump (n : token) (d : nat) : nat :=
+  if is_b n then S d else if is_e n then pred d else d.
+
+Fixpoint escan_st (p : bool) (toks : list token) (d : nat) : nat :=
+  match toks with
+  | [] => d
+  | t :: r => if p then escan_st false r (ebump t d)
+              else if is_tc TEscape t then escan_st true r d else escan_st false r d
+  end.
+Definition escan : list token -> nat -> nat := escan_st false.
+
+Lemma ebump_mono n d d' : (d <= d')%nat -> (ebump n d <= ebump n d')%nat.
+Proof. unfold ebump. destruct (is_b n); [lia|]. destruct (is_e n); lia. Qed.
+
+Lemma escan_st_mono l : forall p d d', (d <= d')%nat -> (escan_st p l d <= escan_st p l d')%nat.
+Proof.
+  induction l as [|t l IH]; intros p d d' H; simpl; [exact H|].
+  destruct p; [apply IH, ebump_mono; exact H|].
+  destruct (is_tc TEscape t); apply IH; exact H.
+Qed.
+
+Lemma escan_other c src d : is_tc TEscape c = false -> escan (c :: src) d = escan src d.
+Proof. intro H. unfold escan. simpl. rewrite H. reflexivity. Qed.
+
+Lemma escan_cmd c n src d : is_tc TEscape c = true -> escan (c :: n :: src) d = escan src (ebump n d).
+Proof. intro H. unfold escan. simpl. rewrite H. reflexivity. Qed.
+
+(* what a reader call consumed never raises the depth / lowers it one level *)
+Definition ESeg (toks rest : list token) : Prop := forall d, (escan toks d <= escan rest d)%nat.
+Definition ECl (toks rest : list token) : Prop := forall d, (escan toks (S d) <= escan rest d)%nat.
+
+Lemma ESeg_refl l : ESeg l l.
+Proof. intro d. lia. Qed.
+Lemma ESeg_trans a b c : ESeg a b -> ESeg b c -> ESeg a c.
+Proof. intros H1 H2 d. specialize (H1 d). specialize (H2 d). lia. Qed.
+Lemma ESeg_ECl a b c : ESeg a b -> ECl b c -> ECl a c.
+Proof. intros H1 H2 d. specialize (H1 (S d)). specialize (H2 d). lia. Qed.
+Lemma ESeg_cons t a b : is_tc TEscape t = false -> ESeg a b -> ESeg (t :: a) b.
+Proof. intros Ht H d. rewrite (escan_other t a d Ht). apply H. Qed.
+
+Lemma ESeg_spacer toks b src1 rest : read_spacer toks = (b, src1) -> ESeg src1 rest -> ESeg toks rest.
+Proof.
+  intros Hs H. apply read_spacer_cases in Hs. destruct Hs as [->|(sp & -> & Hsp)]; [exact H|].
+  apply ESeg_cons; [apply (is_tc_excl _ _ _ Hsp); discriminate | exact H].
+Qed.
+
+Lemma opener_not_escape c : group_kind_of_begin (tcat c) <> None -> is_tc TEscape c = false.
+Proof.
+  intro H. apply is_tc_false. intro E. rewrite E in H. apply H. vm_compute. reflexivity.
+Qed.
+
+Lemma group_end_not_escape k t : is_group_end k t = true -> is_tc TEscape t = false.
+Proof.
+  intro H. apply is_tc_false. intro E. destruct k.
+  - apply is_group_end_brace in H. congruence.
+  - apply is_group_end_bracket in H. congruence.
+Qed.
+
+Lemma math_end_not_escape k t : is_math_end k t = true -> is_tc TEscape t = false.
+Proof.
+  intro H. apply is_math_end_iff in H. apply is_tc_false. intro E. rewrite E in H.
+  destruct k; vm_compute in H; discriminate H.
+Qed.
+
+(* side conditions of the environment counter *)
+Definition nospecial : list token -> bool :=
+  esc_cond (fun n _ => negb (mem_str (ttext n) Tables.special_commands)).
+
+(* a required-argument count that never reaches the bare-token branch of
+   read_arg_required: unlimited/zero, or one with its `{` in place *)
+Definition argcond (nreq : Z) (toks : list token) : Prop :=
+  (nreq <= 0)%Z \/
+  (nreq = 1%Z /\ exists c l, after_spacer toks = c :: l /\ is_tc TGroupBegin c = true).
+Definition argcondb (nreq : Z) (toks : list token) : bool :=
+  (nreq <=? 0)%Z ||
+  ((nreq =? 1)%Z && match after_spacer toks with c :: _ => is_tc TGroupBegin c | [] => false end).
+
+Lemma argcondb_spec nreq toks : argcondb nreq toks = true -> argcond nreq toks.
+Proof.
+  unfold argcondb, argcond. intro H. apply orb_true_iff in H. destruct H as [H|H].
+  - left. apply Z.leb_le. exact H.
+  - right. apply andb_true_iff in H. destruct H as [H1 H2]. apply Z.eqb_eq in H1.
+    split; [exact H1|]. destruct (after_spacer toks) as [|c l]; [discriminate|]. eauto.
+Qed.
+
+Definition sig_ok : list token -> bool :=
+  esc_cond (fun n rest => argcondb (fst (signature_of (ttext n))) rest).
+
+(* no \newcommand-style command (its arguments are read in special mode, where
+   \begin is a plain command); no command of the fixed-signature table with
+   required arguments unless it is \name{..} with one required argument; no
+   skip environment *)
+Definition envtidy (SK : list str) (toks : list token) : bool :=
+  nospecial toks && sig_ok toks && begins_ok SK toks.
+
+Lemma envtidy_suffix SK rest toks :
+  suffix rest toks -> envtidy SK toks = true -> envtidy SK rest = true.
+Proof.
+  intros [pre ->] H. unfold envtidy in *.
+  apply andb_true_iff in H. destruct H as [H H3]. apply andb_true_iff in H. destruct H as [H1 H2].
+  apply andb_true_iff. split; [apply andb_true_iff; split|]; eapply esc_cond_suffix; eassumption.
+Qed.
+
+Lemma envtidy_head SK c n rest :
+  envtidy SK (c :: n :: rest) = true -> is_tc TEscape c = true ->
+  mem_str (ttext n) Tables.special_commands = false /\
+  argcond (fst (signature_of (ttext n))) rest /\
+  (str_eqb (ttext n) s_begin = true -> begin_ok SK rest = true).
+Proof.
+  intros H Hc. unfold envtidy in H.
+  apply andb_true_iff in H. destruct H as [H H3]. apply andb_true_iff in H. destruct H as [H1 H2].
+  pose proof (esc_cond_head _ _ _ _ H1 Hc) as A1. cbv beta in A1. apply negb_true_iff in A1.
+  pose proof (esc_cond_head _ _ _ _ H2 Hc) as A2. cbv beta in A2. apply argcondb_spec in A2.
+  pose proof (esc_cond_head _ _ _ _ H3 Hc) as A3. cbv beta in A3.
+  repeat split; try assumption. intro Hb. rewrite Hb in A3. exact A3.
+Qed.
+
+Lemma item_neutral n d : str_eqb (ttext n) s_item = true -> ebump n d = d.
+Proof. intro H. apply str_eqb_eq in H. unfold ebump, is_b, is_e. rewrite H. reflexivity. Qed.
+
+Lemma ebump_nonbegin n d : is_b n = false -> (ebump n d <= d)%nat.
+Proof. unfold ebump. intros ->. destruct (is_e n); lia. Qed.
+
+Section EnvBalance.
+Variable SK : list str.
+Notation HH := (envtidy SK).
+
+Definition eb_expr f := forall skip m toks e rest,
+  sub_skip SK skip -> HH toks = true -> m <> MSpecial ->
+  read_expr f skip true m toks = Ok (e, rest) -> ESeg toks rest.
+Definition eb_item f := forall acc toks es rest,
+  HH toks = true -> read_item_loop f acc toks = Ok (es, rest) -> ESeg toks rest.
+Definition eb_math f := forall k pos acc toks e rest,
+  HH toks = true -> read_math_loop f k pos true acc toks = Ok (e, rest) -> ESeg toks rest.
+Definition eb_env f := forall name args pos skip m acc toks e rest,
+  sub_skip SK skip -> HH toks = true -> m <> MSpecial ->
+  read_env_loop f name args pos skip true m acc toks = Ok (e, rest) -> ECl toks rest.
+Definition eb_command f := forall nreq nopt m c toks name args rest,
+  HH (c :: toks) = true -> is_tc TEscape c = true -> m <> MSpecial ->
+  ((nreq <? 0)%Z && (nopt <? 0)%Z = true \/ nreq = 0%Z) ->
+  read_command f nreq nopt 0 true m toks = Ok ((name, args), rest) ->
+  match toks with [] => rest = [] | _ :: src => ESeg src rest end.
+Definition eb_args f := forall nreq nopt m toks args rest,
+  HH toks = true -> m <> MSpecial -> argcond nreq toks ->
+  read_args f nreq nopt true m toks = Ok (args, rest) -> ESeg toks rest.
+Definition eb_opt f := forall args nopt m toks args' n' rest,
+  HH toks = true -> m <> MSpecial ->
+  read_arg_optional f args nopt true m toks = Ok ((args', n'), rest) -> ESeg toks rest.
+Definition eb_req f := forall args nreq m toks args' n' rest,
+  HH toks = true -> m <> MSpecial -> argcond nreq toks ->
+  read_arg_required f args nreq true m toks = Ok ((args', n'), rest) ->
+  ESeg toks rest /\ (n' <= 0)%Z.
+Definition eb_arg f := forall c m toks e rest,
+  HH toks = true -> m <> MSpecial -> read_arg f c true m toks = Ok (e, rest) -> ESeg toks rest.
+Definition eb_argloop f := forall k pos m acc toks e rest,
+  HH toks = true -> m <> MSpecial ->
+  read_arg_loop f k pos true m acc toks = Ok (e, rest) -> ESeg toks rest.
+
+Definition eb_all f :=
+  eb_expr f /\ eb_item f /\ eb_math f /\ eb_env f /\ eb_command f /\ eb_args f /\
+  eb_opt f /\ eb_req f /\ eb_arg f /\ eb_argloop f.
+
+Lemma eb_all_holds : forall f, eb_all f.
+Proof.
+  induction f as [|f IH].
+  { unfold eb_all, eb_expr, eb_item, eb_math, eb_env, eb_command, eb_args, eb_opt,
+      eb_req, eb_arg, eb_argloop.
+    repeat match goal with |- _ /\ _ => split end; intros; simpl in *; discriminate. }
+  destruct IH as (Be & Bi & Bm & Bv & Bc & Ba & Bo & Br & Bg & Bl).
+  unfold eb_all.
+  assert (Hargloop : eb_argloop (S f)).
+  { unfold eb_argloop. intros k pos m acc toks e rest Hy Hm H. cbn [read_arg_loop] in H.
+    destruct toks as [|t src]; [discriminate|].
+    destruct (is_group_end k t) eqn:Eend.
+    - inversion H; subst. apply ESeg_cons; [eapply group_end_not_escape; exact Eend | apply ESeg_refl].
+    - apply bind_ok in H. destruct H as ([e1 src1] & He & H).
+      pose proof (sufx_expr _ _ _ _ _ _ _ He) as S1.
+      apply Be in He; [|exact (no_skip' SK) | exact Hy | exact Hm].
+      apply Bl in H; [|exact (envtidy_suffix _ _ _ S1 Hy) | exact Hm].
+      eapply ESeg_trans; eassumption. }
+  assert (Harg : eb_arg (S f)).
+  { unfold eb_arg. intros c m toks e rest Hy Hm H. cbn [read_arg] in H.
+    destruct (group_kind_of_begin (tcat c)) as [k|]; [|discriminate].
+    eapply Bl; eassumption. }
+  assert (Hmath : eb_math (S f)).
+  { unfold eb_math. intros k pos acc toks e rest Hy H. cbn [read_math_loop] in H.
+    destruct toks as [|t src]; [discriminate|].
+    destruct (is_math_end k t) eqn:Eend.
+    - inversion H; subst. apply ESeg_cons; [eapply math_end_not_escape; exact Eend | apply ESeg_refl].
+    - apply bind_ok in H. destruct H as ([e1 src1] & He & H).
+      pose proof (sufx_expr _ _ _ _ _ _ _ He) as S1.
+      apply Be in He; [|exact (no_skip' SK) | exact Hy | discriminate].
+      apply Bm in H; [|exact (envtidy_suffix _ _ _ S1 Hy)].
+      eapply ESeg_trans; eassumption. }
+  assert (Hitem : eb_item (S f)).
+  { unfold eb_item. intros acc toks es rest Hy H. cbn [read_item_loop] in H.
+    assert (Hstep : forall es rest,
+      bind (read_expr f [] true MNonMath toks)
+           (fun '(e, src1) => read_item_loop f (acc ++ [e]) src1) = Ok (es, rest) ->
+      ESeg toks rest).
+    { intros es' rest' H'. apply bind_ok in H'. destruct H' as ([e1 src1] & He & H').
+      pose proof (sufx_expr _ _ _ _ _ _ _ He) as S1.
+      apply Be in He; [|exact (no_skip' SK) | exact Hy | discriminate].
+      apply Bi in H'; [|exact (envtidy_suffix _ _ _ S1 Hy)]. eapply ESeg_trans; eassumption. }
+    assert (Hstop : forall es rest, Ok (acc, toks) = Ok (es, rest) -> ESeg toks rest).
+    { intros es' rest' H'. inversion H'; subst. apply ESeg_refl. }
+    destruct toks as [|t src]; [eapply Hstop; exact H|].
+    destruct (is_tc TEscape t).
+    - apply bind_ok in H. destruct H as ([[cname cargs] crest] & _ & H).
+      destruct (str_eqb cname s_end || str_eqb cname s_item); [eapply Hstop | eapply Hstep]; exact H.
+    - destruct (is_tc TGroupEnd t); [eapply Hstop | eapply Hstep]; exact H. }
+  assert (Hopt : eb_opt (S f)).
+  { unfold eb_opt. intros args nopt m toks args' n' rest Hy Hm H. cbn [read_arg_optional] in H.
+    assert (Hstop : forall a' k' r', Ok (args, nopt, toks) = Ok (a', k', r') -> ESeg toks r').
+    { intros a' k' r' H'. inversion H'; subst. apply ESeg_refl. }
+    destruct (nopt =? 0)%Z; [exact (Hstop _ _ _ H)|].
+    destruct (read_spacer toks) as [b src1] eqn:Esp.
+    destruct src1 as [|c src2]; [exact (Hstop _ _ _ H)|].
+    destruct (is_tc TBracketBegin c) eqn:Ec; [|exact (Hstop _ _ _ H)].
+    apply bind_ok in H. destruct H as ([g src3] & Hg & H).
+    assert (Hy2 : HH src2 = true).
+    { eapply envtidy_suffix; [eapply suffix_after_spacer; exact Esp | exact Hy]. }
+    pose proof (sufx_arg _ _ _ _ _ _ _ Hg) as S3.
+    apply Bg in Hg; [|exact Hy2 | exact Hm].
+    apply Bo in H; [|exact (envtidy_suffix _ _ _ S3 Hy2) | exact Hm].
+    eapply ESeg_spacer; [exact Esp|].
+    apply ESeg_cons; [apply (is_tc_excl _ _ _ Ec); discriminate|].
+    eapply ESeg_trans; eassumption. }
+  assert (Hreq : eb_req (S f)).
+  { unfold eb_req. intros args nreq m toks args' n' rest Hy Hm Hac H.
+    cbn [read_arg_required] in H.
+    destruct (nreq =? 0)%Z eqn:E0.
+    { apply Z.eqb_eq in E0. inversion H; subst. split; [apply ESeg_refl | lia]. }
+    assert (Hstop : forall a' k' r', (nreq <= 0)%Z -> Ok (args, nreq, toks) = Ok (a', k', r') ->
+                      ESeg toks r' /\ (k' <= 0)%Z).
+    { intros a' k' r' Hn H'. inversion H'; subst. split; [apply ESeg_refl | exact Hn]. }
+    assert (Hne : forall c l, after_spacer toks = c :: l -> is_tc TGroupBegin c = false ->
+                    (nreq <= 0)%Z).
+    { intros c l Has Hc. destruct Hac as [Hn|(_ & c' & l' & Has' & Hc')]; [exact Hn|].
+      rewrite Has in Has'. inversion Has'; subst. congruence. }
+    assert (Hnil : after_spacer toks = [] -> (nreq <= 0)%Z).
+    { intro Has. destruct Hac as [Hn|(_ & c' & l' & Has' & _)]; [exact Hn|].
+      rewrite Has in Has'. discriminate. }
+    destruct toks as [|t0 ts0].
+    { eapply Hstop; [apply Hnil; reflexivity | exact H]. }
+    destruct (read_spacer (t0 :: ts0)) as [b src1] eqn:Esp.
+    assert (Has : after_spacer (t0 :: ts0) = src1) by (unfold after_spacer; rewrite Esp; reflexivity).
+    destruct src1 as [|c src2].
+    { eapply Hstop; [apply Hnil; exact Has | exact H]. }
+    assert (Hy2 : HH src2 = true).
+    { eapply envtidy_suffix; [eapply suffix_after_spacer; exact Esp | exact Hy]. }
+    destruct (is_tc TGroupBegin c) eqn:Ec.
+    - apply bind_ok in H. destruct H as ([g src3] & Hg & H).
+      pose proof (sufx_arg _ _ _ _ _ _ _ Hg) as S3.
+      apply Bg in Hg; [|exact Hy2 | exact Hm].
+      apply Br in H; [|exact (envtidy_suffix _ _ _ S3 Hy2) | exact Hm|].
+      + destruct H as [H Hn']. split; [|exact Hn'].
+        eapply ESeg_spacer; [exact Esp|].
+        apply ESeg_cons; [apply (is_tc_excl _ _ _ Ec); discriminate|].
+        eapply ESeg_trans; eassumption.
+      + left. destruct Hac as [Hn|(Hn & _)]; lia.
+    - pose proof (Hne _ _ Has Ec) as Hn.
+      destruct (0 <? nreq)%Z eqn:E1; [apply Z.ltb_lt in E1; lia|].
+      eapply Hstop; eassumption. }
+  assert (Hargs : eb_args (S f)).
+  { unfold eb_args. intros nreq nopt m toks args rest Hy Hm Hac H. cbn [read_args] in H.
+    destruct ((nreq =? 0)%Z && (nopt =? 0)%Z).
+    { inversion H; subst. apply ESeg_refl. }
+    apply bind_ok in H. destruct H as ([[args1 nopt1] src1] & H1 & H).
+    pose proof (sufx_opt _ _ _ _ _ _ _ _ _ H1) as S1.
+    pose proof (envtidy_suffix _ _ _ S1 Hy) as Hy1.
+    (* the required pass meets the same head: with nreq = 1 the optional pass
+       took nothing *)
+    assert (Hac1 : argcond nreq src1).
+    { destruct Hac as [Hn|(Hn & c & l & Has & Hc)]; [left; exact Hn|].
+      right. split; [exact Hn|]. exists c, l. split; [|exact Hc].
+      destruct f as [|f']; [discriminate|].
+      rewrite (C09_other_token_detaches_opt f' [] nopt true m toks) in H1.
+      - inversion H1; subst. exact Has.
+      - unfold head_after_spacer. unfold after_spacer in Has. rewrite Has.
+        apply (is_tc_excl _ _ _ Hc). discriminate. }
+    apply Bo in H1; [|exact Hy | exact Hm].
+    apply bind_ok in H. destruct H as ([[args2 nreq1] src2] & H2 & H).
+    pose proof (sufx_req _ _ _ _ _ _ _ _ _ H2) as S2.
+    pose proof (envtidy_suffix _ _ _ S2 Hy1) as Hy2.
+    apply Br in H2; [|exact Hy1 | exact Hm | exact Hac1]. destruct H2 as [H2 Hn1].
+    apply bind_ok in H. destruct H as ([[args3 n3] src3] & H3 & H).
+    assert (S3 : ESeg src2 src3 /\ suffix src3 src2).
+    { destruct src2 as [|t2 ts2]; [inversion H3; subst; split; [apply ESeg_refl | apply suffix_refl]|].
+      destruct (is_tc TBracketBegin t2);
+        [|inversion H3; subst; split; [apply ESeg_refl | apply suffix_refl]].
+      split; [eapply Bo; eassumption | eapply sufx_opt; exact H3]. }
+    destruct S3 as [S3 S3'].
+    pose proof (envtidy_suffix _ _ _ S3' Hy2) as Hy3.
+    apply bind_ok in H. destruct H as ([[args4 n4] src4] & H4 & H).
+    inversion H; subst args4 src4. clear H.
+    assert (S4 : ESeg src3 rest).
+    { destruct src3 as [|t3 ts3]; [inversion H4; subst; apply ESeg_refl|].
+      destruct (is_tc TGroupBegin t3); [|inversion H4; subst; apply ESeg_refl].
+      apply Br in H4; [exact (proj1 H4) | exact Hy3 | exact Hm | left; exact Hn1]. }
+    eapply ESeg_trans; [exact H1|]. eapply ESeg_trans; [exact H2|].
+    eapply ESeg_trans; [exact S3 | exact S4]. }
+  assert (Hcmd : eb_command (S f)).
+  { unfold eb_command. intros nreq nopt m c toks name args rest Hy Hc Hm Hnn H.
+    cbn [read_command] in H. change (skipn 0 toks) with toks in H.
+    replace (length toks <? 0)%nat with false in H by (symmetry; apply Nat.ltb_ge; lia).
+    destruct toks as [|nt src]; [inversion H; reflexivity|].
+    destruct (envtidy_head _ _ _ _ Hy Hc) as (Hsp & Hsig & _). rewrite Hsp in H.
+    assert (Hac : argcond (fst (if (nreq <? 0)%Z && (nopt <? 0)%Z
+                                then signature_of (ttext nt) else (nreq, nopt))) src).
+    { destruct Hnn as [-> | ->]; [exact Hsig|].
+      destruct ((0 <? 0)%Z && (nopt <? 0)%Z); [exact Hsig | left; simpl; lia]. }
+    destruct (if (nreq <? 0)%Z && (nopt <? 0)%Z then signature_of (ttext nt) else (nreq, nopt))
+      as [nr no]. cbn [fst] in Hac.
+    apply bind_ok in H. destruct H as ([args1 src1] & Ha & H). inversion H; subst.
+    apply Ba in Ha; [exact Ha | | exact Hm | exact Hac].
+    eapply envtidy_suffix; [|exact Hy]. apply suffix_cons, suffix_tail. }
+  assert (Henv : eb_env (S f)).
+  { unfold eb_env. intros name args pos skip m acc toks e rest Hsk Hy Hm H.
+    cbn [read_env_loop] in H.
+    assert (Hstep : forall e rest,
+      bind (read_expr f skip true m toks)
+           (fun '(e0, src1) => read_env_loop f name args pos skip true m (acc ++ [e0]) src1)
+        = Ok (e, rest) -> ECl toks rest).
+    { intros e' rest' H'. apply bind_ok in H'. destruct H' as ([e1 src1] & He & H').
+      pose proof (sufx_expr _ _ _ _ _ _ _ He) as S1.
+      apply Be in He; [|exact Hsk | exact Hy | exact Hm].
+      apply Bv in H'; [|exact Hsk | exact (envtidy_suffix _ _ _ S1 Hy) | exact Hm].
+      eapply ESeg_ECl; eassumption. }
+    destruct toks as [|t l]; [discriminate|].
+    destruct (is_tc TEscape t) eqn:Et; [|exact (Hstep _ _ H)].
+    apply bind_ok in H. destruct H as ([[cname cargs] crest] & Hpeek & H).
+    destruct (str_eqb cname s_end) eqn:Eend; [|exact (Hstep _ _ H)].
+    destruct cargs as [|a0 cargs]; [discriminate|].
+    destruct (negb (str_eqb (arg_string a0) name)); [discriminate|].
+    destruct (read_spacer (skipn 2 (t :: l))) as [b src2] eqn:Esp.
+    destruct src2 as [|c src3]; [discriminate|].
+    apply bind_ok in H. destruct H as ([g grest] & Harg' & H). inversion H; subst.
+    pose proof (end_peek_opens _ _ _ _ _ _ _ _ _ Hpeek Eend) as (c0 & Hc0 & Hk0).
+    unfold head_after_spacer in Hc0. rewrite Esp in Hc0. cbn [snd] in Hc0. inversion Hc0; subst c0.
+    apply peek_shape in Hpeek. destruct Hpeek as [[_ ->]|(nm & src & -> & ->)].
+    { apply str_eqb_eq in Eend. discriminate Eend. }
+    change (skipn 2 (t :: nm :: src)) with src in Esp.
+    assert (Hy3 : HH src3 = true).
+    { eapply envtidy_suffix; [|exact Hy].
+      eapply suffix_trans; [eapply suffix_after_spacer; exact Esp|].
+      apply suffix_cons, suffix_tail. }
+    apply Bg in Harg'; [|exact Hy3 | exact Hm].
+    intro d. rewrite (escan_cmd t nm src (S d) Et).
+    assert (Eb : ebump nm (S d) = d).
+    { unfold ebump, is_b, is_e. apply str_eqb_eq in Eend. rewrite Eend. reflexivity. }
+    rewrite Eb.
+    assert (S1 : ESeg src rest).
+    { eapply ESeg_spacer; [exact Esp|].
+      apply ESeg_cons; [apply opener_not_escape; exact Hk0 | exact Harg']. }
+    apply S1. }
+  assert (Hexpr : eb_expr (S f)).
+  { unfold eb_expr. intros skip m toks e rest Hsk Hy Hm H. cbn [read_expr] in H.
+    destruct toks as [|c src]; [discriminate|].
+    assert (Hys : HH src = true) by (eapply envtidy_suffix; [apply suffix_tail | exact Hy]).
+    destruct (math_kind_of_begin (tcat c)) as [k|] eqn:Ek.
+    { apply Bm in H; [|exact Hys]. apply ESeg_cons; [|exact H].
+      apply is_tc_false. intro E. rewrite E in Ek. vm_compute in Ek. discriminate Ek. }
+    destruct (is_tc TEscape c) eqn:Ec.
+    2:{ destruct (is_tc TGroupBegin c) eqn:Eg.
+        - apply Bg in H; [|exact Hys | discriminate]. apply ESeg_cons; assumption.
+        - inversion H; subst. apply ESeg_cons; [exact Ec | apply ESeg_refl]. }
+    apply bind_ok in H. destruct H as ([[name args] src1] & Hcm & H).
+    pose proof Hcm as Hcm2. pose proof (sufx_command _ _ _ _ _ _ _ _ _ _ Hcm) as S1.
+    change (skipn 0 src) with src in S1.
+    apply (Bc _ _ _ c) in Hcm; [|exact Hy | exact Ec | exact Hm | left; reflexivity].
+    destruct src as [|n rest0].
+    { subst src1. apply read_command_nil in Hcm2. destruct Hcm2 as (-> & -> & _).
+      simpl in H. inversion H; subst. intro d. unfold escan. simpl. rewrite Ec. lia. }
+    pose proof (read_command_name _ _ _ _ _ _ _ _ _ _ Hcm2) as En. subst name.
+    pose proof (envtidy_suffix _ _ _ S1 Hys) as Hy1.
+    destruct (envtidy_head _ _ _ _ Hy Ec) as (_ & _ & Hbo).
+    destruct (str_eqb (ttext n) s_item) eqn:Eitem.
+    { destruct (mode_is_math m); [discriminate|].
+      apply bind_ok in H. destruct H as ([contents src2] & Hit & H). inversion H; subst.
+      apply Bi in Hit; [|exact Hy1].
+      intro d. rewrite (escan_cmd c n rest0 d Ec), (item_neutral n d Eitem).
+      eapply ESeg_trans; eassumption. }
+    destruct (str_eqb (ttext n) s_begin && negb (mode_is_special m)) eqn:Ebegin.
+    2:{ inversion H; subst. intro d. rewrite (escan_cmd c n rest0 d Ec).
+        assert (Hnb : is_b n = false).
+        { unfold is_b. destruct (str_eqb (ttext n) s_begin); [|reflexivity].
+          destruct m; simpl in Ebegin; try discriminate Ebegin. congruence. }
+        pose proof (escan_st_mono rest0 false _ _ (ebump_nonbegin n d Hnb)) as Hmono.
+        specialize (Hcm d). unfold escan in *. lia. }
+    apply andb_true_iff in Ebegin. destruct Ebegin as [Ebegin _].
+    destruct (begin_args SK _ _ _ _ _ _ _ _ skip Ebegin (Hbo Ebegin) Hsk Hcm2)
+      as (a0 & args' & -> & Hns).
+    rewrite Hns in H.
+    apply Bv in H; [|exact Hsk | exact Hy1 |].
+    2:{ destruct (mem_str _ Tables.math_env_names); [discriminate | exact Hm]. }
+    intro d. rewrite (escan_cmd c n rest0 d Ec).
+    assert (Eb : ebump n d = S d) by (unfold ebump, is_b; rewrite Ebegin; reflexivity).
+    rewrite Eb. specialize (Hcm (S d)). specialize (H d). lia. }
+  repeat match goal with |- _ /\ _ => split end; assumption.
+Qed.
+
+Lemma read_tex_loop_env_balanced fuel efuel skip : forall acc toks body,
+  sub_skip SK skip -> HH toks = true ->
+  read_tex_loop fuel efuel skip true acc toks = Ok body -> ESeg toks [].
+Proof.
+  induction fuel as [|fu IH]; intros acc toks body Hsk Hy H; [discriminate|].
+  cbn [read_tex_loop] in H. destruct toks as [|t ts]; [apply ESeg_refl|].
+  apply bind_ok in H. destruct H as ([e rest] & He & H).
+  pose proof (sufx_expr _ _ _ _ _ _ _ He) as S1.
+  apply (proj1 (eb_all_holds efuel)) in He; [|exact Hsk | exact Hy | discriminate].
+  eapply ESeg_trans; [exact He|]. eapply IH; [exact Hsk | | exact H].
+  exact (envtidy_suffix _ _ _ S1 Hy).
+Qed.
+
+End EnvBalance.
+
+Definition env_matched (toks : list token) : Prop := escan toks 0 = 0%nat.
+
+(* Stage 3+, main theorem: if strict parsing succeeds, the environment counter
+   ends at depth 0 - every `\begin` has a later matching `\end` *)
+Theorem strict_success_envs_matched toks user t :
+  envtidy (Tables.skip_env_names ++ user) toks = true ->
+  parse_tokens toks true user = Ok t -> env_matched toks.
+Proof.
+  intros Hy H. unfold parse_tokens in H. apply bind_ok in H. destruct H as (body & Hb & _).
+  apply (read_tex_loop_env_balanced (Tables.skip_env_names ++ user)) in Hb;
+    [|intros n Hn; exact Hn | exact Hy].
+  unfold env_matched. specialize (Hb 0%nat). unfold escan in *. simpl in Hb. lia.
+Qed.
+
+Theorem unmatched_env_strict_fails toks user :
+  envtidy (Tables.skip_env_names ++ user) toks = true -> escan toks 0 <> 0%nat ->
+  parse_tokens toks true user = Err EOFError \/
+  parse_tokens toks true user = Err TypeError \/
+  parse_tokens toks true user = Err AssertionError.
+Proof.
+  intros Hy Hd. apply not_ok_diag. intros t H.
+  apply strict_success_envs_matched in H; [|exact Hy]. contradiction.
+Qed.
